@@ -799,6 +799,14 @@ def c01(ctx):
             if tpl.startswith(("x = { %s:", "class K")) and not (lt[0].isdigit() or lt[0] in "'\".") :
                 continue
             must_debug.append({"src": tpl.replace("%s", lt), "media": rng.choice(["ts", "js"]), "rules": "all"})
+    # (14) the external-linter entry point hands in diagnostics that point into ANOTHER, longer text (the document a script was cut out of),
+    #      with and without directives naming their code
+    for body in ("debugger;\n", "// deno-lint-ignore ext/a\ndebugger;\n", "// deno-lint-ignore-file ext/a\nx;\n", "", "é漢;\n// deno-lint-ignore ext/a no-debugger\ndebugger;"):
+        for pad in (1, 7, 64, 500):
+            for (st, en) in ((0, 1), (0, len(body.encode())), (len(body.encode()), len(body.encode()))):
+                must_debug.append({"src": body, "media": "ts", "rules": "all",
+                                   "ext": {"decline": False, "rules": ["ext/a"], "diags": [{"code": "ext/a", "start": st, "end": en, "msg": "m", "foreign": True, "foreign_pad": pad},
+                                                                                             {"code": "ext/a", "start": 0, "end": 0, "msg": "n"}]}})
     cases += must_debug
     # (7) regular-expression heavy files (long digit runs, \u{...} with many hex digits, deep groups), all rules
     import regex as RX
